@@ -117,6 +117,7 @@ def child_case(rng, seed):
     policy = rng.choice(["canonical", "shuffle", "pct", "latency-small"])
     cfg = E.policy_cfg(policy)
     cfg["execution_ttl"] = 600
+    cfg["store"] = rng.choice(["file", "file", "redis"])     # (what "no such state machine" looks like differs per store)
     cdef, cstatus = CHILDREN[kind]
     # the parent's own execution name may be as long as a name can be: the children it launches still get names (and
     # ARNs) of their own
@@ -263,6 +264,12 @@ def token_case(rng, seed):
     policy = rng.choice(["canonical", "shuffle", "latency-small"])
     cfg = E.policy_cfg(policy)
     cfg["execution_ttl"] = 600
+    api_node = 0
+    if rng.random() < 0.3:
+        # two instances on one broker (shared Redis store): the callbacks are sent to the API of the instance that does
+        # NOT run the execution - the token names the reply queue of the one that does
+        cfg.update(store="redis", nodes=2)
+        api_node = 1
     if flavour == "rpc":
         task = {"Type": "Task", "Resource": "arn:aws:states:local::rpcmessage:invoke.waitForTaskToken",
                 "Parameters": {"FunctionName": F + "cb", "Payload": {"token.$": "$$.Task.Token", "k.$": "$.k"}},
@@ -285,7 +292,7 @@ def token_case(rng, seed):
            "executions": [{"machine": "tok", "input": {"k": 3}, "name": "t1"},
                           {"machine": "tok", "input": {"k": 4}, "name": "t2"}],
            "script": script, "functions": ["cb"], "config": cfg}
-    meta = dict(flavour=flavour, stream=stream, policy=policy, exact=cfg["latency"] == "zero")
+    meta = dict(flavour=flavour, stream=stream, policy=policy, exact=cfg["latency"] == "zero", api_node=api_node)
     return scn, meta
 
 
@@ -313,7 +320,7 @@ def check_token(scn, meta, seed):
                     return
                 p = dict(params)
                 p["taskToken"] = tk
-                calls.append((label, w.api.call(w.nodes[0], action, p)))
+                calls.append((label, w.api.call(w.nodes[meta.get("api_node", 0) % len(w.nodes)], action, p)))
             return go
         ok_out = json.dumps({"answer": 42})
         t0 = sim.now
